@@ -27,7 +27,7 @@ const defaultTimeout = 10 * time.Second // Node.Survey without a context deadlin
 type respPlan struct {
 	Handler    string        `json:"handler"` // sync | delay | never
 	HDelay     time.Duration `json:"handler_delay,omitempty"`
-	Fault      string        `json:"fault,omitempty"` // none | short | drop | dup | late (remote responders only)
+	Fault      string        `json:"fault,omitempty"` // none | short | drop | dup | burst | late (remote responders only)
 	FDelay     time.Duration `json:"fault_delay,omitempty"`
 	ReqTransit time.Duration `json:"request_transit,omitempty"`
 	Code       uint32        `json:"code"`
@@ -221,6 +221,10 @@ func (b *bus) publish(from int, data []byte, nodeID string) error {
 			case "dup":
 				b.send(to, data, mk(0, "dup"), 0)
 				b.send(to, data, mk(1, "dup"), rp.FDelay)
+			case "burst":
+				for k := 0; k < 6; k++ {
+					b.send(to, data, mk(k, "burst"), 0)
+				}
 			case "late":
 				delay := sp.deadline() - now + rp.FDelay
 				if delay < rp.FDelay {
@@ -389,6 +393,8 @@ func (x *sworld) gen(n int) {
 				case 5, 6:
 					rp.Fault = "late"
 					rp.FDelay = kit.Pick(r, []time.Duration{ms(5), ms(150), ms(300), time.Second})
+				case 7:
+					rp.Fault = "burst"
 				case 8, 9:
 					rp.Fault = "short"
 					rp.FDelay = ms(r.Range(1, 20))
@@ -475,6 +481,23 @@ func (x *sworld) evaluate(sp *surveyPlan, log []*delivery) string {
 	}
 	sp.mu.Unlock()
 
+	// More messages than expected nodes reached the issuer while the survey was open
+	// (duplicates): the one defect known to lose answers gets its own class.
+	msgs := 0
+	for _, d := range log {
+		if d.Kind == "response" && d.Token == sp.Token && d.To == sp.Issuer && d.Returned && d.T1 <= sp.t1 {
+			msgs++
+		}
+	}
+	if _, ok := answered[sp.Issuer]; ok && sp.Resp[sp.Issuer] != nil {
+		msgs++
+	}
+	lostClass := func(cls string) string {
+		if msgs > len(sp.Resp) {
+			return "c41-answer-dropped-when-duplicates-overflow-reply-buffer"
+		}
+		return cls
+	}
 	// 1. result keys: expected nodes that responded, data of this very survey
 	for id, v := range sp.res {
 		j, ok := x.idxOf(id)
@@ -525,7 +548,7 @@ func (x *sworld) evaluate(sp *surveyPlan, log []*delivery) string {
 		}
 		switch {
 		case sp.t1 > last+eps:
-			c.Violation("c41-survey-returned-late-after-all-answered", fmt.Sprintf("survey %s (node %d, %d expected nodes): every expected node had answered by %s but Survey returned at %s (deadline %s, err=%v, %d results)", sp.Token, sp.Issuer, len(sp.Resp), last, sp.t1, D, sp.err, len(sp.res)), detail())
+			c.Violation(lostClass("c41-survey-returned-late-after-all-answered"), fmt.Sprintf("survey %s (node %d, %d expected nodes, %d reply messages while open): every expected node had answered by %s but Survey returned at %s (deadline %s, err=%v, %d results)", sp.Token, sp.Issuer, len(sp.Resp), msgs, last, sp.t1, D, sp.err, len(sp.res)), detail())
 			return "violation"
 		case sp.err != nil || len(sp.res) != len(sp.Resp):
 			c.Violation("c41-survey-incomplete-although-all-answered", fmt.Sprintf("survey %s: every expected node answered by %s, Survey returned at %s with %d of %d results, err=%v", sp.Token, last, sp.t1, len(sp.res), len(sp.Resp), sp.err), detail())
@@ -556,7 +579,7 @@ func (x *sworld) evaluate(sp *surveyPlan, log []*delivery) string {
 	for j, t := range answered {
 		if t < sp.t1-eps && t < D-eps {
 			if _, ok := sp.res[x.ids[j]]; !ok {
-				c.Violation("c41-delivered-response-missing-from-result", fmt.Sprintf("survey %s: the response of node %d reached the issuer at %s, Survey returned at %s without it", sp.Token, j, t, sp.t1), detail())
+				c.Violation(lostClass("c41-delivered-response-missing-from-result"), fmt.Sprintf("survey %s (%d expected nodes, %d reply messages while open): the response of node %d reached the issuer at %s, Survey returned at %s without it", sp.Token, len(sp.Resp), msgs, j, t, sp.t1), detail())
 				return "violation"
 			}
 		}
@@ -701,7 +724,7 @@ func TestC41(t *testing.T) {
 		ID:     "C41",
 		Level:  "fault_enumeration",
 		Bubble: true,
-		Rule: "one virtual-time bubble per case: 3-5 nodes joined by an in-memory Controller bus (every message is delivered off the publisher's goroutine: one goroutine per message, or one FIFO reader per node; node-addressed messages go to that node only); after the nodes know each other (Node.Info lists all), 6-14 surveys are issued concurrently from random nodes at instants 10 ms - 2.5 s (several share an issuer, so per-node survey ids collide across nodes and windows overlap), addressed to all nodes, one other node or the issuer itself, with context deadlines 50 ms / 200 ms / 1 s or none (10 s default). Per (survey, responder): handler answers synchronously, after a virtual delay (1 ms ... 2x timeout) or never; the bus applies a seeded fault to the response: drop, duplicate (second copy now, 1 ms, after the deadline or 1.5 s later), delay past the deadline (+5 ms ... +1 s, landing in later surveys of the same issuer), short delay; requests may take 2 ms. Every answer echoes responder id + survey token. " +
+		Rule: "one virtual-time bubble per case: 3-5 nodes joined by an in-memory Controller bus (every message is delivered off the publisher's goroutine: one goroutine per message, or one FIFO reader per node; node-addressed messages go to that node only); after the nodes know each other (Node.Info lists all), 6-14 surveys are issued concurrently from random nodes at instants 10 ms - 2.5 s (several share an issuer, so per-node survey ids collide across nodes and windows overlap), addressed to all nodes, one other node or the issuer itself, with context deadlines 50 ms / 200 ms / 1 s or none (10 s default). Per (survey, responder): handler answers synchronously, after a virtual delay (1 ms ... 2x timeout) or never; the bus applies a seeded fault to the response: drop, duplicate (second copy now, 1 ms, after the deadline or 1.5 s later), burst (6 copies at once), delay past the deadline (+5 ms ... +1 s, landing in later surveys of the same issuer), short delay; requests may take 2 ms. Every answer echoes responder id + survey token. " +
 			"Oracle: result keys are addressed nodes whose response (matching token, responder, code) had reached the issuer by the return instant; Survey returns at max(answer instants) when every addressed node answered before the deadline (complete result, nil error), else exactly at the deadline with context.DeadlineExceeded (1 ms tolerance on the virtual clock; surveys with an answer within 2 ms of the deadline are skipped); answers delivered before the return are in the result; every HandleControl call carrying a survey response (late, duplicate, for a finished survey) returns at the virtual instant it was entered.",
 		Assumptions: []string{
 			"the bus honours the Controller contract: a message published for one node id is delivered to that node only (a broadcast of node-addressed responses would let per-node survey ids collide; not generated)",
@@ -709,7 +732,7 @@ func TestC41(t *testing.T) {
 			"response ids are not rewritten by the bus: a 'foreign' response is one for a survey that already ended, delivered while later surveys of the same issuer are open",
 		},
 		Cases:           map[string]int{"quick": 700, "thorough": 10000},
-		RequireCounters: []string{"surveys_complete_before_deadline", "surveys_ended_at_deadline", "surveys_ended_at_default_deadline", "responses_delivered_fault_dup", "responses_delivered_fault_late", "responses_delivered_fault_short", "responses_dropped_by_bus", "responses_delivered_after_survey_returned", "late_responses_delivered_while_another_survey_of_the_issuer_was_open", "surveys_to_all", "surveys_to_one", "surveys_to_self", "bus_parallel_delivery_cases", "bus_fifo_delivery_cases", "partial_results_at_deadline"},
+		RequireCounters: []string{"surveys_complete_before_deadline", "surveys_ended_at_deadline", "surveys_ended_at_default_deadline", "responses_delivered_fault_dup", "responses_delivered_fault_burst", "responses_delivered_fault_late", "responses_delivered_fault_short", "responses_dropped_by_bus", "responses_delivered_after_survey_returned", "late_responses_delivered_while_another_survey_of_the_issuer_was_open", "surveys_to_all", "surveys_to_one", "surveys_to_self", "bus_parallel_delivery_cases", "bus_fifo_delivery_cases", "partial_results_at_deadline"},
 		Run:             runCase,
 	})
 }
